@@ -287,6 +287,18 @@ func runC10(cs *vrt.Case) {
 		out   []*big.Int
 		tr    []*gmw.Triples
 		pan   *vrt.PanicInfo
+		more  [][]*big.Int // outputs of further sessions on the same mesh
+	}
+	// 0-2 further sessions with fresh inputs on the same mesh (not for the deep circuits: 6 s each)
+	var moreInputs [][]*big.Int
+	if !triples && what != "deep AND chain" {
+		for k := r.Intn(3); k > 0; k-- {
+			var in []*big.Int
+			for i := 0; i < P; i++ {
+				in = append(in, r.BoundaryBig(int(circs[0].Inputs[i].Type.Bits)))
+			}
+			moreInputs = append(moreInputs, in)
+		}
 	}
 	res := make([]pres, P)
 	var wg sync.WaitGroup
@@ -340,6 +352,16 @@ func runC10(cs *vrt.Case) {
 					return
 				}
 				res[i].out = out
+				// further sessions on the same connected mesh (other inputs, the
+				// same circuit): a network is not a one-shot object
+				for k := range moreInputs {
+					out, e := nets[i].Run(moreInputs[k][i], circs[i], false)
+					if e != nil {
+						res[i].err, res[i].stage = e, fmt.Sprintf("Run (session %d on the same mesh)", k+2)
+						return
+					}
+					res[i].more = append(res[i].more, out)
+				}
 			})
 		}(i)
 	}
@@ -432,6 +454,28 @@ func runC10(cs *vrt.Case) {
 		cs.Key("triples", fmt.Sprint(P, counts))
 		cs.Count("triple_sessions", 1)
 		return
+	}
+	for k, in := range moreInputs {
+		f2, e := refc.EvalFlat(circs[0], []*big.Int{refc.Flatten(circs[0].Inputs, in)})
+		if e != nil {
+			cs.Inconc(e.Error())
+			return
+		}
+		w2 := refc.SplitOut(circs[0].Outputs, f2[0])
+		for i := range res {
+			cs.Evals++
+			if len(res[i].more) <= k || len(res[i].more[k]) != len(w2) {
+				cs.Violate("C10|arity", fmt.Sprintf("party %d: session %d on the same mesh returned a wrong number of outputs", i, k+2), map[string]any{"case": desc})
+				return
+			}
+			for j := range w2 {
+				if res[i].more[k][j].Cmp(w2[j]) != 0 {
+					cs.Violate("C10|wrong-output|later-session", fmt.Sprintf("party %d of %d, session %d on the same mesh: output %d = %s, plain evaluation of the circuit gives %s", i, P, k+2, j, res[i].more[k][j].Text(16), w2[j].Text(16)), map[string]any{"case": desc})
+					return
+				}
+			}
+		}
+		cs.Count("further_sessions_on_one_mesh", 1)
 	}
 	flat, e := refc.EvalFlat(circs[0], []*big.Int{refc.Flatten(circs[0].Inputs, inputs)})
 	if e != nil {
